@@ -306,8 +306,9 @@ class C14World(World):
             "two-layer stack / MaskedAutoregressiveFlow / SimpleRealNVP) and a state-aware seeded history over {train, eval, "
             "forward(batch), inverse(batch), checkpoint, crash+restart into a fresh incarnation from the latest or a stale "
             "checkpoint, rejected calls}; every call reaching a monitored layer is judged against the executable reference "
-            "model (when state may change, initialisation statistics, momentum rule, output formulas) and after every op the "
-            "layer's state_dict must be bit-identical to the last permitted write. Non-trivial iff the run has at least one "
+            "model (when state may change - trainable parameters only on ActNorm's single initialising pass, buffers only in "
+            "training-mode forward passes, nothing otherwise -, initialisation statistics, momentum rule, output formulas) and "
+            "between calls the layer's own parameters and buffers must stay bit-identical. Non-trivial iff the run has at least one "
             "training-mode forward through a monitored layer followed by at least one later judged call; distinct = distinct "
             "(model label, op-kind sequence) among those.")
     REAL = ["nflows ActNorm, BatchNorm and every container/flow around them (working tree of $VERIF_REPO)",
